@@ -223,6 +223,17 @@ func (env *SEnv) call(e *SExpr) *SVal {
 		p := App(SAddr, "curve_params", x.T)
 		HP, B := u.comp(env.cur, hcomp(SAddr)), u.comp(env.cur, "BIG")
 		return &SVal{T: App(SInt, "bitlen", Select(B, Select(HP, FieldAddrT(p, 1))))}
+	case "encopts", "decopts":
+		// the options a cbor mode value was built from (modes are a function of their options, and determine them)
+		x := env.coerce(env.eval(e.Args[0]), SAny)
+		tn := "EncOptions"
+		fnm := "enc_opts_of"
+		if e.Name == "decopts" {
+			tn, fnm = "DecOptions", "dec_opts_of"
+		}
+		rt := u.eng.resolveType(&STypeExpr{Kind: "qual", Pkg: "cbor", Name: tn})
+		u.eng.declareFun(fnm, []Sort{SAny}, rt.Sort)
+		return &SVal{T: App(rt.Sort, fnm, x.T), Go: rt.Go}
 	case "asmap":
 		// conversion of a named map type (ProtectedHeader, UnprotectedHeader, CWTClaims) to map[any]any
 		x := env.eval(e.Args[0])
